@@ -23,6 +23,8 @@ MCPol ==
  @@ "G" :> [rules |-> [main |-> <<[pr |-> {"p1", "p2"}, thr |-> 1]>>, feat |-> <<>>], gthr |-> {[refs |-> {"feat"}, thr |-> 1]}, cg |-> {}, bfp |-> {}, all |-> P, apps |-> NoApps]
  @@ "K" :> [rules |-> [main |-> <<[pr |-> {"p1", "p2"}, thr |-> 1]>>, feat |-> <<>>], gthr |-> {[refs |-> {"feat"}, thr |-> 1], [refs |-> {"main"}, thr |-> 2]},
             cg |-> {[refs |-> {"main"}, thr |-> 2]}, bfp |-> {}, all |-> P, apps |-> NoApps]      \* own global rule + a controller's
+ @@ "L" :> [rules |-> [main |-> <<[pr |-> {"p1", "p2"}, thr |-> 1]>>, feat |-> <<>>], gthr |-> {[refs |-> {"feat"}, thr |-> 1], [refs |-> {"main"}, thr |-> 2]},
+            cg |-> {}, bfp |-> {"main"}, all |-> P, apps |-> NoApps]      \* several global rules of which only some match the reference (declared in every order by the replay)
  @@ "H" :> [rules |-> [main |-> <<[pr |-> {"p1", "p2"}, thr |-> 1]>>, feat |-> <<>>], gthr |-> {}, cg |-> {}, bfp |-> {"main"}, all |-> P, apps |-> NoApps]
  @@ "T" :> [rules |-> [main |-> <<[pr |-> {"p1"}, thr |-> 1]>>, feat |-> <<>>], gthr |-> {[refs |-> {"main", "feat"}, thr |-> 2]}, cg |-> {}, bfp |-> {}, all |-> P, apps |-> NoApps]
  @@ "R" :> [rules |-> [main |-> <<[pr |-> P, thr |-> 2]>>, feat |-> <<>>], gthr |-> {}, cg |-> {}, bfp |-> {}, all |-> P,
@@ -30,7 +32,7 @@ MCPol ==
  @@ "M3" :> ([rules |-> [main |-> <<[pr |-> P, thr |-> 3]>>, feat |-> <<>>]] @@ NoGlobal)
  @@ "T0" :> ([rules |-> [main |-> <<[pr |-> {"p1"}, thr |-> 1]>>, feat |-> <<>>]] @@ NoGlobal)
 
-PolIds == CASE Family = "merge" -> {"A", "C", "M3", "T", "R"} [] Family \in {"window", "tworec"} -> {"A", "B"} [] Family \in {"approvals", "apprskip", "apprlate"} -> {"R"} [] Family = "nopolicy" -> {"A"} [] Family = "chain" -> {"A", "B"} [] Family = "global" -> {"A", "G", "H", "T", "K"} [] Family = "recovery" -> {"A", "B"} [] OTHER -> {"A", "B", "C"}
+PolIds == CASE Family = "merge" -> {"A", "C", "M3", "T", "R"} [] Family \in {"window", "tworec"} -> {"A", "B"} [] Family \in {"approvals", "apprskip", "apprlate"} -> {"R"} [] Family = "nopolicy" -> {"A"} [] Family = "chain" -> {"A", "B"} [] Family = "global" -> {"A", "G", "H", "T", "K", "L"} [] Family = "recovery" -> {"A", "B"} [] OTHER -> {"A", "B", "C"}
 MainSigners == CASE Family = "merge" -> {"p1"} [] Family \in {"window", "tworec"} -> {"p1", "p3"} [] Family \in {"approvals", "apprskip", "apprlate"} -> {"p1", "kU"} [] Family = "chain" -> {"p1", "p3"} [] Family = "global" -> {"p1", "p3", "kU"} [] Family = "recovery" -> {"p1", "p3"} [] OTHER -> {"p1", "p2", "p3", "kU", "none"}
 
 PrevOf(l, r) == LET S == {j \in 1..Len(l) : IsFor(l[j], r)} IN IF S = {} THEN 0 ELSE Max(S)
@@ -115,7 +117,7 @@ C19Agrees == \A tree \in {1, 2} : C19Side =>
                 MergeAgrees(log, "main", tree, MergePredictI(log, "main", tree, {}), LAMBDA s : MergeVerifies(log, "main", tree, s, {}))
 \* C09 is C01Refines over the approvals family (statement-bound approvals, code-review approvals)
 \* C11: global rules only add constraints -- removing them never turns an accepted history into a rejected one
-Strip == "M3" :> "M3" @@ "R" :> "R" @@ "A" :> "A" @@ "B" :> "B" @@ "C" :> "C" @@ "G" :> "A" @@ "H" :> "A" @@ "T" :> "T0" @@ "K" :> "A"
+Strip == "M3" :> "M3" @@ "R" :> "R" @@ "A" :> "A" @@ "B" :> "B" @@ "C" :> "C" @@ "G" :> "A" @@ "H" :> "A" @@ "T" :> "T0" @@ "K" :> "A" @@ "L" :> "A"
 StripLog(l) == [i \in DOMAIN l |-> IF l[i].k = "pol" THEN [l[i] EXCEPT !.v = Strip[l[i].v]] ELSE l[i]]
 C11Mono == \A r \in Refs : /\ Impl(log, r, {}) = "ok" => Impl(StripLog(log), r, {}) = "ok"
                            /\ DVerdictC01(log, r, TRUE) = "ok" => DVerdictC01(StripLog(log), r, TRUE) = "ok"
